@@ -41,6 +41,10 @@ where
     }
   }
 
+  pub(crate) fn observer_count(&self) -> usize {
+    self.observers.read().unwrap().len()
+  }
+
   fn fetch_observers(&self) -> Vec<Observer<'a, Item>> {
     let binding = self.observers.read().unwrap();
     let x = binding.iter().map(|x| x.1.clone());
